@@ -17,10 +17,10 @@ for P in sys.argv[1:]:
     low = rep.lower(); idx = max(low.find('proposed manifest'), low.find('manifest proposal'), low.find('manifest text'), low.find('manifest entry')); sec = rep[idx:] if idx >= 0 else rep[low.find('level_claimed'):]
     sec = re.sub(r'\s*\n\s*', ' ', sec)
     i1 = sec.find('level_claimed'); i2 = sec.find('level_note')
-    m1 = re.search(r'"(.*?)"', sec[i1:i2 if i2 > i1 else None], flags=re.S) if i1 >= 0 else None
-    m2 = re.search(r'"(.*?)"', sec[i2:], flags=re.S) if i2 >= 0 else None
-    text = m1.group(1).strip() if m1 else None
-    note = m2.group(1).strip() if m2 else None
+    c1 = re.findall(r'"(.*?)"', sec[i1:i2 if i2 > i1 else None], flags=re.S) if i1 >= 0 else []
+    c2 = re.findall(r'"(.*?)"', sec[i2:i2 + 4000], flags=re.S) if i2 >= 0 else []
+    text = max(c1, key=len).strip() if c1 else None
+    note = c2[0].strip() if c2 else None
     if not text or not note:
         print(P, 'could not parse proposed text; fill in by hand'); text = text or 'TODO'; note = note or 'TODO'
     entry = {
